@@ -12,7 +12,12 @@ def kindOf : String → Option Kind
   | "oracle" => some .oracle
   | _ => none
 
-def S (s : Str) : Json := Json.str (String.ofList s)
+/-- strings in answers: plain JSON strings when printable ASCII, else the array of code points
+    (the shared line protocol splits answers with Python's `splitlines`, which also splits at
+    U+0085/U+2028/...) -/
+def S (s : Str) : Json :=
+  if s.all (fun c => 0x20 ≤ c.val && c.val < 0x7f) then Json.str (String.ofList s)
+  else Json.arr (s.map (fun c => Lean.toJson c.val.toNat)).toArray
 
 /-- a name is a JSON string (plain `str`) or `{"s": …, "q": true|false|null}` (`quoted_name`) -/
 def nameOf (j : Json) : Option Model.Ident.Name :=
